@@ -30,7 +30,7 @@ from ..ser_json import cerr, cjnum, cjson, cpath, decode_floats, encode_floats
 
 PROP = "C10"
 THEOREMS = ["C10_loc", "C10_loc_total", "C10_wf_refuted_columne", "C10_wf_partial", "C10_total",
-            "C10_data_presence", "C10_null_error_match", "C10_extensions_passthrough",
+            "C10_data_presence", "C10_data_null_when_aborted", "C10_null_error_match", "C10_extensions_passthrough",
             "C10_no_extensions_invented", "C10_finite", "C10_checkers_decide_spec",
             "C10_exec_errors_are_obligations", "C10_null_error_match_exec", "C10_wf_exec"]
 AXIOMS_OK = []
@@ -88,8 +88,14 @@ def corpus():
     # fixed 5d4e174: invalid @skip/@include arguments at execution time (nullable variable with a
     # default supplied as null) escaped the entry points as CoercionError
     for sname, text, payloads in G.DIRECTIVE_VARIABLE_CASES[:9]:
+        pl = [p for p in payloads if None in p.values()][0]
         for cfg in G.CONFIGS:
-            out.append(_resp_case(sname, text, {}, payloads[0], None, cfg, "directive-argument-coercion"))
+            out.append(_resp_case(sname, text, {}, pl, None, cfg, "directive-argument-coercion"))
+    # ... after an earlier list item already registered an error (it stays, below the nulled field)
+    for cfg in G.CONFIGS:
+        out.append(_resp_case("A", "query Q($s: Boolean = true) { lo { id o { a @skip(if: $s) } } a }",
+                              {"lo/0/id": ["raise", "item error first", {"k": 1}]}, {"s": None}, None, cfg,
+                              "directive-argument-coercion"))
     for i, (text, world) in enumerate(G.RESOLVE_TYPE_CASES):
         for cfg in G.CONFIGS:
             out.append(_resp_case("B", text, world, {}, None, cfg, "resolve-type-error"))
@@ -154,7 +160,9 @@ def generate(rng, tier):
             for cfg in (G.CONFIGS if not quick else [G.CONFIGS[n % 4], G.CONFIGS[(n + 2) % 4]]):
                 world = {}
                 if n % 3 == 1:
-                    world = {"o/id": ["raise", "also fails", {"k": 1}], "s": ["null"]}
+                    # incl. an error registered for an earlier list item before the enclosing field is nulled
+                    world = {"o/id": ["raise", "also fails", {"k": 1}], "s": ["null"],
+                             "lo/0/id": ["raise", "item error first", None], "me/friends/0/id": ["null"]}
                 cases.append(_resp_case(sname, text, world, pl, None, cfg, "directive-variables"))
             n += 1
     # operation names
@@ -274,7 +282,7 @@ def _stage_verdicts(schema, case):
         op, _root = get_operation_with_type(schema, doc, case["operation_name"])
     except ExecutionError as e:
         st["opselect"] = _safe_str(e)
-    if op is not None:
+    if op is not None and not st["validation"]:
         try:
             coerced = coerce_variable_values(schema, op, decode_floats(case["variables"]))
         except VariablesCoercionError as e:
@@ -285,6 +293,11 @@ def _stage_verdicts(schema, case):
                 collect_fields(schema, _root, op.selection_set.selections, doc.fragments, coerced)
             except CoercionError as e:
                 st["rootcoercion"] = [abstract_error(e)]
+    elif op is not None:
+        try:
+            coerce_variable_values(schema, op, decode_floats(case["variables"]))
+        except VariablesCoercionError as e:
+            st["varcoercion"] = [abstract_error(x) for x in e.errors]
     return st, doc, op
 
 
